@@ -11,6 +11,7 @@ import (
 	"sort"
 	"strconv"
 	"strings"
+	"sync/atomic"
 	"testing"
 	"time"
 
@@ -61,6 +62,7 @@ type violationRec struct {
 	Shrunk   []uint32          `json:"shrunk_tape"`
 	ShrunkTr []string          `json:"shrunk_trace"`
 	Attempts int               `json:"shrink_attempts"`
+	Flaky    int               `json:"replays_needed_beyond_first"`
 	Confirm  *kernel.Violation `json:"confirmed"`
 }
 
@@ -158,6 +160,20 @@ func TestWorker(t *testing.T) {
 	states := map[uint64]struct{}{}
 	seenSig := map[string]bool{}
 	nviol := 0
+	// real-time watchdog (outside any bubble): a run that does not finish is a machinery problem (a goroutine blocked
+	// where synctest cannot see it); say so and stop instead of hanging until the driver's timeout
+	var runStart atomic.Int64
+	var curIdx atomic.Int64
+	hangLimit := time.Duration(envInt("VERIF_HANG_S", 90)) * time.Second
+	go func() {
+		for {
+			time.Sleep(2 * time.Second)
+			if st := runStart.Load(); st != 0 && time.Since(time.Unix(0, st)) > hangLimit {
+				emit(map[string]any{"type": "hung", "index": curIdx.Load(), "seed": runSeed(base, propID, int(curIdx.Load())), "seconds": hangLimit.Seconds()})
+				os.Exit(3)
+			}
+		}
+	}()
 	idx := worker
 	only := envInt("VERIF_ONLY", -1)
 	if only >= 0 {
@@ -176,6 +192,8 @@ func TestWorker(t *testing.T) {
 			stateF.WriteAt([]byte(fmt.Sprintf("%-12d %-24d\n", idx, seed)), 0)
 		}
 		sp := kernel.Spec{Prop: propID, Seed: seed, Index: idx, Known: known}
+		curIdx.Store(int64(idx))
+		runStart.Store(time.Now().UnixNano())
 		res := kernel.Exec(t, sp, p.Engine)
 		sum.Runs++
 		sum.LastIdx = idx
@@ -227,13 +245,28 @@ func TestWorker(t *testing.T) {
 			sp.Tape = res.Tape
 			sp.Trace = true
 			full := kernel.Exec(t, sp, p.Engine)
-			rec := &violationRec{Type: "violation", Result: full}
-			if full.Violation == nil || full.Violation.Signature != res.Violation.Signature {
-				emit(map[string]any{"type": "harness", "index": idx, "seed": seed, "tape": res.Tape,
-					"error": fmt.Sprintf("violation %s did not reproduce from its own tape (got %+v)", res.Violation.Signature, full.Violation)})
-				break
+			flaky := 0
+			for full.Violation == nil || full.Violation.Signature != res.Violation.Signature {
+				// The run did not reproduce from its own tape. The only sources the tape cannot drive are choices the
+				// library makes from Go map iteration order where no hook exists; retry a few times before giving up.
+				flaky++
+				if flaky > 12 {
+					break
+				}
+				full = kernel.Exec(t, sp, p.Engine)
 			}
+			rec := &violationRec{Type: "violation", Result: full, Flaky: flaky}
+			if full.Violation == nil || full.Violation.Signature != res.Violation.Signature {
+				// observed for real, but not replayable from the tape: report it as such (no shrinking)
+				emit(&violationRec{Type: "violation", Result: res, Flaky: -1})
+				if nviol >= maxViol {
+					break
+				}
+				continue
+			}
+			runStart.Store(time.Now().Add(shrinkS).UnixNano())
 			shr, att := kernel.Shrink(t, sp, res.Violation.Signature, p.Engine, shrinkS)
+			runStart.Store(time.Now().UnixNano())
 			rec.Attempts = att
 			sp.Tape = shr
 			conf := kernel.Exec(t, sp, p.Engine)
@@ -251,6 +284,7 @@ func TestWorker(t *testing.T) {
 			}
 		}
 	}
+	runStart.Store(0)
 	sum.EnumDone = idx >= p.MinRuns
 	sum.FPs, sum.FPTotal = dumpSet(fps), len(fps)
 	sum.Scheds, sum.SchedTotal = dumpSet(scheds), len(scheds)
